@@ -84,6 +84,21 @@ func TestC26(t *testing.T) {
 		{"ice-empty", &webrtc.WebRtcSignal{Body: &webrtc.WebRtcSignal_Ice{Ice: &webrtc.WebRtcIce{}}}},
 		{"empty", &webrtc.WebRtcSignal{}},
 	}
+	// payload shapes: size classes x {repetitive (compresses extremely well), incompressible}
+	nBase := len(sigs) // the deviation families below are applied to the basic signals only
+	for _, n := range []int{64, 1 << 10, 24 << 10, 256 << 10} {
+		rep := strings.Repeat("a=candidate:842163049 1 udp 1677729535 203.0.113.7 46154 typ srflx\r\n", n/64+1)[:n]
+		var inc strings.Builder
+		for i := 0; inc.Len() < n; i++ {
+			h := sha256.Sum256([]byte(fmt.Sprintf("c26/incompressible/%d/%d", n, i)))
+			inc.WriteString(hex.EncodeToString(h[:]))
+		}
+		sigs = append(sigs,
+			sig{fmt.Sprintf("sdp-answer-repetitive-%dB", n), &webrtc.WebRtcSignal{Body: &webrtc.WebRtcSignal_Sdp{Sdp: &webrtc.WebRtcSdp{TxSeqno: 4, SdpType: "answer", Sdp: sdpAnswer + rep}}}},
+			sig{fmt.Sprintf("ice-repetitive-%dB", n), &webrtc.WebRtcSignal{Body: &webrtc.WebRtcSignal_Ice{Ice: &webrtc.WebRtcIce{Candidate: iceCand + strings.Repeat(" ", n)}}}},
+			sig{fmt.Sprintf("sdp-offer-incompressible-%dB", n), &webrtc.WebRtcSignal{Body: &webrtc.WebRtcSignal_Sdp{Sdp: &webrtc.WebRtcSdp{TxSeqno: 5, SdpType: "offer", Sdp: sdpOffer + inc.String()[:n]}}}},
+		)
+	}
 
 	wctx := webrtc.SignalingCryptContext
 	// every other encryption / signing context string used in the repository
@@ -251,6 +266,9 @@ func TestC26(t *testing.T) {
 	for _, f := range fx {
 		if run.Quick() && f.ki != 0 {
 			continue
+		}
+		if f.si >= nBase {
+			continue // payload-shape signals: grid only (bit flips of a 256 KiB payload would be 2M decodes)
 		}
 		base := fmt.Sprintf("to-k%d/%s/", f.ki, sigs[f.si].name)
 		enum.BitFlips(f.payload, func(mu enum.Mut) { decode("bitflip", base+mu.Desc, f.ki, mu.Data, nil) })
